@@ -53,7 +53,8 @@ add("KF-linspace-array-endpoints", ["C01", "C02", "C04", "C05", "C07", "C09", "C
 
 add("KF-pad-jvp-nonlinear-modes", ["C02", "C09", "C15"],
     "forward-mode np.pad applies pad(g, width, mode) to the tangent for every mode; for the non-linear statistics modes (maximum, minimum, median) that is not the derivative (reverse mode asserts mode == 'constant')",
-    {"prim": "pad", "mode": ["fwd"], "symptom": ["wrong_value"]},
+    [{"prim": "pad", "mode": ["fwd"], "args": {"2": {"__re__": "str:(maximum|minimum|median)"}}, "symptom": ["wrong_value"]},
+     {"prim": "pad", "mode": ["fwd"], "kw": {"mode": {"__re__": "str:(maximum|minimum|median)"}}, "symptom": ["wrong_value"]}],
     case("pad", [A(5), 1, "maximum"], tags=["unsupported_mode"]), witness_mode="fwd")
 
 add("KF-norm-complex", ["C04", "C05", "C09"],
@@ -121,6 +122,7 @@ fixed("FX-solve-broadcast-b", ["C01", "C05"], "bcb52e1", "linalg.solve with b br
 fixed("FX-norm-inf-and-negative-axes", ["C01", "C02", "C15"], "0d0905e", "linalg.norm(ord=inf) returned NaN gradients and a tuple axis with negative entries a wrong gradient", case("norm", [A(2, 2, 2, 3)], {"axis": (-1, -2)}, ns="linalg"))
 fixed("FX-diag-nonsquare", ["C01", "C05"], "2ae9395", "np.diag of a non-square matrix returned a square cotangent", case("diag", [A(2, 4)], tags=["nonsquare"]))
 fixed("FX-tril-triu-1d", ["C01", "C05", "C15"], "952e4e6", "np.tril/np.triu of a 1-D array returned an (n,n) cotangent for the (n,) argument", case("tril", [A(4)]))
+fixed("FX-diff-n-exceeds-length", ["C05"], "bf307a4", "np.diff(x, n) with n >= the axis length (empty output) returned zeros of the wrong shape/kind", case("diff", [A(2, 2), 3], tags=["n_exceeds"]))
 fixed("FX-where-jvp-broadcast", ["C05", "C02"], "423a953", "forward-mode np.where returned a tangent with the branch's shape/kind instead of the output's", case("where", [cc, A(3), A(2, 2, 3)], argnum=1), witness_mode="fwd")
 
 out = {"_comment": "Known findings: genuine defects of HIPS/autograd that are recorded rather than repaired (status open) and defects repaired by a 'fix:' commit (status fixed; fixed entries suppress nothing - their witnesses are re-run on every check and a failing one is an ordinary VIOLATION). `match` is a conjunction over fields of the case signature (lists = any of; {__re__}: regex; {__has__}: list membership); never a seed, hash or random value. Read-only at run time.", "findings": F}
